@@ -24,6 +24,7 @@ package rules
 
 import (
 	"fmt"
+	"strings"
 	"unicode/utf8"
 
 	"github.com/kstenerud/go-concise-encoding/ce/events"
@@ -368,6 +369,26 @@ func (_this *Context) ValidateLengthMarkerID(length uint64) {
 func (_this *Context) ValidateContentsString(contents []byte) {
 	if !utf8.Valid(contents) {
 		panic(fmt.Errorf("string is not valid UTF-8: %v", string(contents)))
+	}
+}
+
+// Validate that a media type has the form type/subtype, made of the RFC 2045
+// token characters that the text format can also express.
+func (_this *Context) ValidateMediaType(mediaType string) {
+	isAlpha := func(ch byte) bool {
+		return (ch >= 'a' && ch <= 'z') || (ch >= 'A' && ch <= 'Z')
+	}
+	isToken := func(ch byte) bool {
+		return isAlpha(ch) || (ch >= '0' && ch <= '9') || strings.IndexByte("!#$%&'*+.^_`|~{}-", ch) >= 0
+	}
+
+	slashIndex := strings.IndexByte(mediaType, '/')
+	isValid := slashIndex > 0 && slashIndex < len(mediaType)-1 && isAlpha(mediaType[0])
+	for i := 1; isValid && i < len(mediaType); i++ {
+		isValid = i == slashIndex || isToken(mediaType[i])
+	}
+	if !isValid {
+		panic(fmt.Errorf("%q is not a valid media type", mediaType))
 	}
 }
 
